@@ -43,7 +43,7 @@ theorem readAnyA_ok {p : String} {a : Arr} {i : Nat} {lv : LVal} (h : decodeAt a
 /-! ### membership in the blame of the fields -/
 
 theorem mem_blameNamed {f : Arr → LVal → List RPos} : ∀ (fs : ArrFields) (lfs : LFields) (n : String) (a : Arr) (v : LVal),
-    fieldNamed fs lfs n = some (a, v) → ∀ q ∈ below [Build.childName n] (f a v), q ∈ blameNamed f n fs lfs
+    fieldNamed fs lfs n = some (a, v) → ∀ q ∈ below [segName n] (f a v), q ∈ blameNamed f n fs lfs
   | .nil, _, _, _, _, h, _, _ => by simp [fieldNamed] at h
   | .cons fm a' rest, .nil, _, _, _, h, _, _ => by simp [fieldNamed] at h
   | .cons fm a' rest, .cons _ v' lrest, n, a, v, h, q, hq => by
@@ -59,7 +59,7 @@ theorem mem_blameNamed {f : Arr → LVal → List RPos} : ∀ (fs : ArrFields) (
 
 theorem mem_blameFieldsR : ∀ (tfs : TFields) (fs : ArrFields) (lfs : LFields) (m : String) (pos q : Nat) (t : Target) (a : Arr) (v : LVal),
     lookupT tfs m pos = some (q, t) → fieldNamed fs lfs m = some (a, v) →
-    ∀ x ∈ below [Build.childName m] (blameRead t a v), x ∈ blameFieldsR tfs fs lfs
+    ∀ x ∈ below [segName m] (blameRead t a v), x ∈ blameFieldsR tfs fs lfs
   | .nil, _, _, _, _, _, _, _, _, h, _, _, _ => by simp [lookupT] at h
   | .cons n t' rest, fs, lfs, m, pos, q, t, a, v, h, hf, x, hx => by
     unfold lookupT at h
